@@ -330,7 +330,7 @@ def _check_validators(rep: Report, rule: str, m) -> None:
     not_fee = ("cmp", "!=", is_fee[2], is_fee[3])
 
     def nz(defs, guard, want_nz):
-        return any(g == guard and v[0] == "call" and v[1].endswith("type_check_positive_decimal") and (dict(v[2]).get("non_zero") == ("const", True)) == want_nz for g, v, _ in defs)
+        return any((g == guard or (g[0] == "and" and guard in g[1])) and v[0] == "call" and v[1].endswith("type_check_positive_decimal") and (dict(v[2]).get("non_zero") == ("const", True)) == want_nz for g, v, _ in defs)
 
     a, f = od.get("OutTransaction.__crypto_out_no_fee", []), od.get("OutTransaction.__crypto_fee", [])
     ok = nz(a, not_fee, True) and nz(a, is_fee, False) and nz(f, is_fee, True) and nz(f, not_fee, False) and len(a) == 2 and len(f) == 2
@@ -469,6 +469,9 @@ def _check_config_cli(rep: Report, rule: str, m) -> None:
     rep.analysed(cfg_init)
     rs = [(show(g), n) for g, n in m.raises_in(cfg_init, early_exits=False)]
     gtxt = [g for g, _ in rs]
+    # the 'repeated section' raises of a last branch written as a guard clause (`else: if not name == X: raise ...; if seen: raise ...`) are
+    # conditioned on having passed the guard: for those predicates the guards with early exits accounted for count as well
+    gtxt_after_exits = gtxt + [show(g) for g, _ in m.raises_in(cfg_init, early_exits=True)]
     for what, pred in {
         "unknown section": lambda g: all(f"!= '{k}'" in g for k in ("general", "in_header", "out_header", "intra_header", "accounting_methods")),
         "repeated general section": lambda g: "== 'general'" in g and "Configuration.__assets" in g,
@@ -484,7 +487,7 @@ def _check_config_cli(rep: Report, rule: str, m) -> None:
         "empty intra_header": lambda g: g == "not bool(self.[Configuration.__intra_header])",
         "missing configuration file": lambda g: "exists()" in g,
     }.items():
-        rep.check(any(pred(g) for g in gtxt), rule, cfg_init.module, cfg_init.qualname, f"Configuration raises: {what}", f"Configuration.__init__ has no raise for '{what}'", loc(cfg_init.node))
+        rep.check(any(pred(g) for g in (gtxt_after_exits if what.startswith("repeated") else gtxt)), rule, cfg_init.module, cfg_init.qualname, f"Configuration raises: {what}", f"Configuration.__init__ has no raise for '{what}'", loc(cfg_init.node))
     from . import c11
 
     c11.check_header_validation(rep, rule)
